@@ -451,8 +451,24 @@ Definition get_url_case : dec url_case :=
    it <- get_list (h <- get_str ;; i <- get_bool ;; r <- get_bool ;; ret (h, (i, r))) ;;
    ret (UrlCase c t u pt (map (fun '(h, (i, _)) => (h, i)) it) (map (fun '(h, (_, r)) => (h, r)) it))).
 
+(** kind 0, external account binding: the requests that carried an externalAccountBinding or
+    created an account, as the mock CAs logged them: (CA, account-creating newAccount?, carries a
+    binding?, the CA whose newAccount URL the binding names (9 none), key id + MAC + inner JWK all
+    as configured / as the outer request's key) *)
+Definition eab_rec := (nat * bool * bool * nat * bool)%type.
+
+(** (g) a binding is sent only inside an account-creating newAccount request, names the newAccount
+    URL of the CA that receives it, carries the configured key id, a valid MAC and the account key
+    that signs the request — and only when an external account is configured; with one
+    configured, every account created at the production CA was bound to it *)
+Definition eab_spec (conf : bool) (recs : list eab_rec) : bool :=
+  forallb (fun r : eab_rec =>
+             let '(c, creating, has, url_ca, good) := r in
+             if (has : bool) then conf && creating && Nat.eqb url_ca c && good
+             else negb (conf && creating && Nat.eqb c 0)) recs.
+
 Inductive case :=
-| CHist (evs : list event) (f : final)
+| CHist (evs : list event) (f : final) (eab_conf : bool) (eab : list eab_rec)
 | CUrl (u : url_case) (obs : option str)
 | CContact (u : url_case) (cs : list (bool * bool))
 | CKeyPem (with_email key_matches reg_ok ca_knows : bool)
@@ -462,7 +478,11 @@ Inductive case :=
 Definition get_case : dec case :=
   (kind <- get_nat ;;
    match kind with
-   | 0 => evs <- get_events ;; f <- get_final ;; ret (CHist evs f)
+   | 0 => evs <- get_events ;; f <- get_final ;;
+          conf <- get_bool ;;
+          recs <- get_list (c <- get_nat ;; cr <- get_bool ;; h <- get_bool ;; u <- get_nat ;; g <- get_bool ;;
+                            ret (c, cr, h, u, g)) ;;
+          ret (CHist evs f conf recs)
    | 1 => u <- get_url_case ;; o <- get_opt get_str ;; ret (CUrl u o)
    | 2 => u <- get_url_case ;; cs <- get_list (get_pair get_bool get_bool) ;; ret (CContact u cs)
    | 3 => we <- get_bool ;; km <- get_bool ;; ro <- get_bool ;; ck <- get_bool ;;
@@ -480,7 +500,7 @@ Definition get_case : dec case :=
 
 Definition model_agrees (c : case) : bool :=
   match c with
-  | CHist evs f =>
+  | CHist evs f _ _ =>
       match replay init evs with
       | Some (s, b) => b && final_agree s f
       | None => false
@@ -498,7 +518,7 @@ Definition model_agrees (c : case) : bool :=
 
 Definition spec_ok (c : case) : bool :=
   match c with
-  | CHist evs f => spec_hist evs f
+  | CHist evs f conf recs => spec_hist evs f && eab_spec conf recs
   | CUrl u obs => url_spec u obs
   | CContact u cs => contact_spec cs
   | CKeyPem _ _ _ _ _ _ _ cr => Nat.eqb cr 0     (* a configured key never registers an account *)
@@ -541,7 +561,7 @@ Fixpoint kfirst_bad (s : kstate) (evs : list event) (i : nat) : nat :=
 
 Definition explain_line (l : list Z) : list Z :=
   match decode get_case l with
-  | Some (CHist evs f) =>
+  | Some (CHist evs f _ _) =>
       let i := first_bad init evs 0 in
       let st := match replay init (firstn i evs) with Some (s, _) => s | None => init end in
       let exp := match nth_error evs i with
